@@ -17,6 +17,7 @@ pub mod c12;
 pub mod c12_fn;
 pub mod c13;
 pub mod c09;
+pub mod c11;
 
 pub fn run(id: &str, ctx: &Ctx) -> i32 {
     match id {
@@ -31,6 +32,7 @@ pub fn run(id: &str, ctx: &Ctx) -> i32 {
         "C13" => finish(ctx, c13::run(ctx), Some(&c13::replay)),
         "C07" => finish(ctx, c07::run(ctx), Some(&c07::replay)),
         "C09" => finish(ctx, c09::run(ctx), Some(&c09::replay)),
+        "C11" => finish(ctx, c11::run(ctx), Some(&c11::replay)),
         _ => {
             eprintln!("unknown or unbuilt check {id}");
             2
@@ -51,10 +53,53 @@ pub fn replay(id: &str, case: &Value) -> Result<(), String> {
         "C13" => c13::replay(case),
         "C07" => c07::replay(case),
         "C09" => c09::replay(case),
+        "C11" => c11::replay(case),
         _ => Err(format!("no replay for {id}")),
     }
 }
 
+/// Quick sanity run of the machinery itself (not a property check).
 pub fn selftest() -> i32 {
-    0
+    use num_bigint::BigUint;
+    use whirlpool::math::U256Muldiv;
+    // U256Muldiv::div against num-bigint over a word alphabet (incl. the Knuth-D add-back branch with the carry word)
+    let words: [u64; 6] = [0, 1, 2, 1 << 63, u64::MAX - 1, u64::MAX];
+    let mut n = 0u64;
+    let mut bad = 0u64;
+    let mut panics = 0u64;
+    let mk = |w: [u64; 4]| U256Muldiv::new(((w[3] as u128) << 64) | w[2] as u128, ((w[1] as u128) << 64) | w[0] as u128);
+    let big = |w: [u64; 4]| w.iter().rev().fold(BigUint::from(0u32), |acc, x| (acc << 64) + BigUint::from(*x));
+    let prev = std::panic::take_hook();
+    std::panic::set_hook(Box::new(|_| {}));
+    for a in 0..6usize.pow(4) {
+        let aw = [words[a % 6], words[a / 6 % 6], words[a / 36 % 6], words[a / 216 % 6]];
+        for b in 0..6usize.pow(4) {
+            let bw = [words[b % 6], words[b / 6 % 6], words[b / 36 % 6], words[b / 216 % 6]];
+            if bw == [0, 0, 0, 0] {
+                continue;
+            }
+            n += 1;
+            let r = std::panic::catch_unwind(|| mk(aw).div(mk(bw), true));
+            match r {
+                Err(_) => panics += 1,
+                Ok((q, rem)) => {
+                    let (qb, rb) = (big(aw) / big(bw), big(aw) % big(bw));
+                    let qq = big([q.get_word(0), q.get_word(1), q.get_word(2), q.get_word(3)]);
+                    let rr = big([rem.get_word(0), rem.get_word(1), rem.get_word(2), rem.get_word(3)]);
+                    if qq != qb || rr != rb {
+                        bad += 1;
+                    }
+                }
+            }
+        }
+    }
+    std::panic::set_hook(prev);
+    println!("selftest u256 div: {n} divisions, {bad} wrong, {panics} panics");
+    let r = std::panic::catch_unwind(|| whirlpool::math::get_next_sqrt_price_from_a_round_up((1u128 << 64) + 1, 1u128 << 64, 1, true));
+    println!("selftest next_sqrt_price_from_a(2^64+1, 2^64, 1): {:?}", r.map_err(|_| "panic"));
+    if bad > 0 || panics > 0 {
+        1
+    } else {
+        0
+    }
 }
